@@ -580,6 +580,6 @@ theorem exact_timeGrammatical : TimeGrammatical Codec.exact := by
   generalize padNat 13 (t.sec + 1000000000000).toNat ++ padNat 3 (t.nsec / 1000000) ++ padNat 7 (t.off + 1000000).toNat = ds at hds hne
   have htw := takeWhile_append_stop ds 'Z' [] hds (by decide)
   simp only [exactTimePrefix, List.cons_append, List.nil_append, isDateTime]
-  simp [allDigits, twoDigits, isDigit, digitVal, htw, hne]
+  simp [allDigits, twoDigits, isDigit, digitVal, dtFracRest, dtZoneOK, htw, hne]
 
 end Hls.Playlist.MG
